@@ -175,7 +175,8 @@ static int tap_main(int argc, char* const* argv)
     Item privkey;
     secp256k1_keypair keypair;
     bech32_hrp = ca.m.count('p') ? ca.m['p'] : DEFAULT_ADDR_PREFIX;
-    if (bech32_hrp.empty() || bech32_hrp.size() > 83) abort("invalid address prefix (must be 1..83 characters)");
+    // a bech32(m) string is at most 90 characters: the separator and the 59 characters of a 32 byte program leave 30 for the prefix
+    if (bech32_hrp.empty() || bech32_hrp.size() > 30) abort("invalid address prefix (must be 1..30 characters)");
     for (char c : bech32_hrp) {
         // the bech32 encoder asserts on anything but lowercase printable US-ASCII
         if (c < 33 || c > 126 || (c >= 'A' && c <= 'Z')) abort("invalid address prefix '%s' (lowercase printable ASCII only)", bech32_hrp.c_str());
